@@ -20,7 +20,11 @@ Definition dRP : dec reward_period :=
 Definition dPD : dec lppd_period :=
   r <- dZ ;; s <- dZ ;; e <- dZ ;; md <- dZ ;; dRet (mkPD r s e md).
 
+Definition dCP : dec clp_params :=
+  pm <- dZ ;; fd <- dZ ;; ft <- dList (dPair dZ dZ) ;; lk <- dZ ;; cn <- dZ ;; reg <- dList (dPair dZ dZ) ;; wl <- dList dZ ;;
+  dRet (mkCP pm fd ft lk cn reg wl).
+
 Definition dClp : dec clp_state :=
-  bal <- dStore dZ ;; sup <- dStore dZ ;; pools <- dStore dPool ;; lps <- dStore dLp ;;
-  buckets <- dStore dZ ;; accu <- dZ ;; rps <- dList dRP ;; pds <- dList dPD ;; h <- dZ ;;
-  dRet (mkClp (mkBank bal sup) pools lps buckets accu rps pds h).
+  bal <- dStore (dStore dZ) ;; sup <- dStore dZ ;; pools <- dStore dPool ;; lps <- dStore (dStore dLp) ;;
+  buckets <- dStore dZ ;; accu <- dZ ;; rps <- dList dRP ;; pds <- dList dPD ;; h <- dZ ;; cp <- dCP ;;
+  dRet (mkClp (mkBank bal sup) pools lps buckets accu rps pds h cp).
